@@ -109,16 +109,8 @@ func (c *ctx) sourceCopy() {
 	// writeInvertedCffTag: every line is either echoed or replaced by the inverted constraint
 	if fc, fd := c.findFunc(c.inter.PkgPath, "", "writeInvertedCffTag"); fd != nil {
 		info := fc.pkg.TypesInfo
-		inv := false
-		ast.Inspect(fd.Body, func(n ast.Node) bool {
-			if call, ok := n.(*ast.CallExpr); ok {
-				if fn := astx.Callee(info, call); fn != nil && fn.Name() == "invertCffConstraint" {
-					// argument is &expr where expr came from constraint.Parse(line)
-					inv = true
-				}
-			}
-			return true
-		})
+		_ = info
+		inv := c.callsReach(fc, fd, "invertCffConstraint", map[*ast.FuncDecl]bool{})
 		c.s.Check(inv, "G15", "writeInvertedCffTag|applies invertCffConstraint to parsed constraint lines", c.pos(fd), "", "constraint lines are not passed through invertCffConstraint")
 	}
 }
@@ -379,6 +371,23 @@ func (c *ctx) dependsOn() {
 			if kv, ok := nn.(*ast.KeyValueExpr); ok {
 				if id, ok := kv.Key.(*ast.Ident); ok && id.Name == "Dependencies" {
 					lit, _ = kv.Value.(*ast.FuncLit)
+					if vid, ok := kv.Value.(*ast.Ident); ok && lit == nil {
+						// a local function value defined once: `deps := func(i int) []int {...}`
+						obj := astx.IdentObj(info, vid)
+						n := 0
+						astx.Writes(fd.Body, func(l ast.Expr, at ast.Node) {
+							if astx.IdentObj(info, l) != obj || obj == nil {
+								return
+							}
+							n++
+							if as, ok := at.(*ast.AssignStmt); ok && len(as.Rhs) == 1 {
+								lit, _ = as.Rhs[0].(*ast.FuncLit)
+							}
+						})
+						if n != 1 {
+							lit = nil
+						}
+					}
 				}
 			}
 			return true
@@ -477,6 +486,183 @@ func (c *ctx) dependsOn() {
 	}
 }
 
+// okWriter: writes to e cannot fail silently: e is an in-memory buffer or the sticky error writer,
+// or a local that was last assigned one before `at`, or a parameter of an unexported function that
+// receives such a writer at every one of its call sites.
+func (c *ctx) okWriter(fc *fileCtx, e ast.Expr, at ast.Node, depth int) bool {
+	if depth > 4 {
+		return false
+	}
+	info := fc.pkg.TypesInfo
+	isMem := func(t types.Type) bool {
+		if t == nil {
+			return false
+		}
+		s := t.String()
+		return s == "*bytes.Buffer" || s == "*strings.Builder" || strings.HasSuffix(s, "stickyErrWriter")
+	}
+	e = astx.Unparen(e)
+	if isMem(info.TypeOf(e)) {
+		return true
+	}
+	if u, ok := e.(*ast.UnaryExpr); ok && u.Op == token.AND {
+		if t := info.TypeOf(u.X); t != nil && (t.String() == "bytes.Buffer" || t.String() == "strings.Builder" || strings.HasSuffix(t.String(), "stickyErrWriter")) {
+			return true
+		}
+	}
+	if se, ok := e.(*ast.SelectorExpr); ok {
+		// a struct field: every value ever given to that field must be acceptable
+		sel := info.Selections[se]
+		if sel == nil || sel.Kind() != types.FieldVal {
+			return false
+		}
+		field := sel.Obj()
+		n, good := 0, true
+		for _, f2 := range c.files {
+			i2 := f2.pkg.TypesInfo
+			f2 := f2
+			ast.Inspect(f2.file, func(nn ast.Node) bool {
+				switch x := nn.(type) {
+				case *ast.KeyValueExpr:
+					if id, ok := x.Key.(*ast.Ident); ok && i2.Uses[id] == field {
+						n++
+						if !c.okWriter(f2, x.Value, x, depth+1) {
+							good = false
+						}
+					}
+				case *ast.AssignStmt:
+					for i, l := range x.Lhs {
+						if ls, ok := astx.Unparen(l).(*ast.SelectorExpr); ok {
+							if s2 := i2.Selections[ls]; s2 != nil && s2.Obj() == field {
+								n++
+								if len(x.Lhs) != len(x.Rhs) || !c.okWriter(f2, x.Rhs[i], x, depth+1) {
+									good = false
+								}
+							}
+						}
+					}
+				case *ast.CompositeLit:
+					// unkeyed literals of the struct would hide a value
+					if t := i2.TypeOf(x); t != nil {
+						if st, ok := t.Underlying().(*types.Struct); ok && len(x.Elts) > 0 {
+							if _, keyed := x.Elts[0].(*ast.KeyValueExpr); !keyed {
+								for i := 0; i < st.NumFields(); i++ {
+									if st.Field(i) == field {
+										good = false
+									}
+								}
+							}
+						}
+					}
+				}
+				return true
+			})
+		}
+		return n > 0 && good
+	}
+	obj := astx.IdentObj(info, e)
+	if obj == nil {
+		return false
+	}
+	fd := fc.funcDecl(at)
+	if fd == nil {
+		return false
+	}
+	// last assignment before `at` in this function
+	var last ast.Expr
+	var lastPos token.Pos
+	astx.Writes(fd.Body, func(l ast.Expr, w ast.Node) {
+		if astx.IdentObj(info, l) != obj || w.Pos() >= at.Pos() || w.Pos() < lastPos {
+			return
+		}
+		if as, ok := w.(*ast.AssignStmt); ok && len(as.Lhs) == len(as.Rhs) {
+			for i := range as.Lhs {
+				if astx.IdentObj(info, as.Lhs[i]) == obj {
+					last, lastPos = as.Rhs[i], w.Pos()
+				}
+			}
+		}
+	})
+	if last != nil {
+		return c.okWriter(fc, last, at, depth+1)
+	}
+	// parameter: every call site must pass an acceptable writer
+	idx := -1
+	k := 0
+	for _, f := range fd.Type.Params.List {
+		for _, n := range f.Names {
+			if info.Defs[n] == obj {
+				idx = k
+			}
+			k++
+		}
+	}
+	fn, _ := info.Defs[fd.Name].(*types.Func)
+	if idx < 0 || fn == nil || fn.Exported() {
+		return false
+	}
+	sites, good := 0, true
+	c.eachCall(func(fc2 *fileCtx, call *ast.CallExpr, callee *types.Func) {
+		if callee != fn {
+			return
+		}
+		sites++
+		if idx >= len(call.Args) || !c.okWriter(fc2, call.Args[idx], call, depth+1) {
+			good = false
+		}
+	})
+	// the function value must not escape (be referenced other than as a callee)
+	for _, f := range c.files {
+		for id, o := range f.pkg.TypesInfo.Uses {
+			if o != types.Object(fn) {
+				continue
+			}
+			var p ast.Node = id
+			if se, ok := f.par[id].(*ast.SelectorExpr); ok && se.Sel == id {
+				p = se
+			}
+			if call, ok := f.par[p].(*ast.CallExpr); !ok || call.Fun != p {
+				if f.par[id] != nil {
+					good = false
+				}
+			}
+		}
+	}
+	return sites > 0 && good
+}
+
+// callsReach: fd (transitively, through functions declared in stratum B) calls a function named `name`.
+func (c *ctx) callsReach(fc *fileCtx, fd *ast.FuncDecl, name string, seen map[*ast.FuncDecl]bool) bool {
+	if fd == nil || fd.Body == nil || seen[fd] {
+		return false
+	}
+	seen[fd] = true
+	found := false
+	ast.Inspect(fd.Body, func(n ast.Node) bool {
+		call, ok := n.(*ast.CallExpr)
+		if !ok || found {
+			return !found
+		}
+		fn := astx.Callee(fc.pkg.TypesInfo, call)
+		if fn == nil {
+			return true
+		}
+		if fn.Name() == name {
+			found = true
+			return false
+		}
+		for _, f2 := range c.files {
+			if d := astx.DeclOfFunc(f2.pkg.TypesInfo, []*ast.File{f2.file}, fn); d != nil {
+				if c.callsReach(f2, d, name, seen) {
+					found = true
+				}
+			}
+		}
+		return true
+	})
+	return found
+}
+
 // G17 error plumbing.
 func (c *ctx) errorPlumbing() {
 	errT := types.Universe.Lookup("error").Type()
@@ -527,10 +713,8 @@ func (c *ctx) errorPlumbing() {
 			c.s.OK("G17", key, c.pos(call), "bytes.Buffer writes cannot fail")
 		case strings.HasPrefix(full, "fmt.Fprint") && (dstType == "*bytes.Buffer" || strings.HasSuffix(dstType, "stickyErrWriter")):
 			c.s.OK("G17", key, c.pos(call), "write to an in-memory buffer / the sticky writer whose Err is returned")
-		case strings.HasPrefix(full, "fmt.Fprint") && name == "writeInvertedCffTag":
-			c.s.OK("G17", key, c.pos(call), "w is the sticky error writer; its Err is the function's result")
-		case strings.HasPrefix(full, "fmt.Fprint") && (name == "generator.generateFlow" || name == "generator.generateParallel" || name == "generator.resetMagicTokens"):
-			c.s.OK("G17", key, c.pos(call), "table entry: w is always the in-memory output buffer of GenerateFile / resetMagicTokens' buffer")
+		case (strings.HasPrefix(full, "fmt.Fprint") || full == "io.WriteString") && len(call.Args) > 0 && c.okWriter(fc, call.Args[0], call, 0):
+			c.s.OK("G17", key, c.pos(call), "the destination is, at every call site of this function, an in-memory buffer or the sticky error writer (whose Err is returned)")
 		case strings.HasPrefix(full, "fmt.Fprint") && fc.pkg.PkgPath == load.Module+"/cmd/cff":
 			c.s.OK("G17", key, c.pos(call), "usage text to the flag set's output")
 		default:
